@@ -1790,6 +1790,38 @@ def c14(ctx):
             res.compared += 1
             if corr.diff(m, got):
                 res.disagree("PTR", case, m, got, corr.diff(m, got))
+    # one resolver, many short-lived documents and documents edited in place: the answer is a function of
+    # the document AS IT IS NOW and the fragment (an answer remembered by object identity goes stale)
+    for k in range(300):
+        doc = {"k": [k, {"v": k}], "n": {"m": k}}
+        for frag, want in (("/k/0", k), ("/k/1/v", k), ("/n/m", k)):
+            try:
+                got = resolver.resolve_fragment(doc, frag)
+            except Exception as exc:        # noqa: BLE001
+                got = type(exc).__name__
+            if got != want:
+                res.fail("pointer:stale-answer", "resolve_fragment(%r, %r) = %r on a resolver that has seen other documents" % (doc, frag, got),
+                         {"doc": doc, "frag": frag})
+                break
+        del doc
+    doc = {"a": {"b": [10, 20]}}
+    steps = [("/a/b/1", 20, None), ("/a/b/1", 99, lambda: doc["a"]["b"].__setitem__(1, 99)),
+             ("/a/b/1", "RefResolutionError", lambda: doc["a"]["b"].pop()), ("/a/c", 5, lambda: doc["a"].__setitem__("c", 5)),
+             ("/a/b/0", "RefResolutionError", lambda: doc["a"].__setitem__("b", "str"))]
+    for frag, want, edit in steps:
+        if edit:
+            edit()
+        try:
+            got = resolver.resolve_fragment(doc, frag)
+        except E.RefResolutionError:
+            got = "RefResolutionError"
+        except Exception as exc:        # noqa: BLE001
+            got = type(exc).__name__
+        res.evaluations += 1
+        if got != want:
+            res.fail("pointer:stale-answer", "after an in-place edit resolve_fragment(%r, %r) = %r, the document says %r" % (doc, frag, got, want),
+                     {"doc": copy.deepcopy(doc), "frag": frag})
+            break
     for _ in range(ctx.n(1500)):
         doc = ctx.g.value(ctx.r.choice([1, 2, 3, 3]))
         if ctx.r.random() < 0.5 and isinstance(doc, dict):
